@@ -23,6 +23,7 @@ type Profile struct {
 	Crashes                int  // max crashes
 	Rollbacks              bool
 	Sync                   bool // some Sets are synchronous
+	Serializable           bool // some Sets ask for SERIALIZABLE isolation (their successors wait for them phase by phase)
 	Preempt                int  // 0 atomic, 1 pre-emptive, 2 drawn per case
 	Drawn                  bool
 	MaxOpsPerTarget        int
@@ -176,6 +177,9 @@ func genScenario(rt *rapid.T, p Profile) Scenario {
 		}
 		if p.Sync && rapid.IntRange(0, 1).Draw(rt, "sync") == 1 {
 			spec.Sync = true
+		}
+		if p.Serializable && rapid.IntRange(0, 3).Draw(rt, "serializable") == 0 {
+			spec.Serializable = true
 		}
 		sc.Actions = append(sc.Actions, Action{Kind: "set", Set: &spec})
 		nLogged++
